@@ -50,7 +50,7 @@ def main():
                     r = chcore.analyze(o.fn, "main", timeout=o.timeout * scale, per_path_timeout=ppt)
                 else:
                     hlib.STATE["witness"] = None
-                    r = chcore.analyze(o.fn, mode, timeout=(o.timeout * scale if mode == "main" else min(o.timeout * scale, 60)),
+                    r = chcore.analyze(o.fn, mode, timeout=o.timeout * scale,
                                        per_path_timeout=ppt)
                 out["results"][mode] = r
     except BaseException as e:  # noqa
